@@ -64,6 +64,19 @@ def run(ctx):
         key = (st, t, n // 1200)
         reqs.setdefault(key, []).append(q)
         n_stmt += 1
+    # late stages reached: statements whose WHERE and GROUP BY are absent, so that every FROM x select list x ORDER BY
+    # combination gets as far as projecting and sorting (ambiguous / missing / duplicated sort keys over joins and self-joins)
+    few_lists = [l for l in comps[1] if l[0]["k"] == "star" or (len(l) == 2 and l[0]["k"] == "col" and l[1]["k"] == "col")][:14]
+    m = 0
+    for f in comps[0]:
+        for l in few_lists:
+            for o in comps[4]:
+                for st in ("nulls", "empty"):
+                    q = dict(**{"from": f}, list=l, where=[], group=[], order=o, limit=-1, offset=-1, style=m % 8, raw="")
+                    t = rng.randrange(1, len(tables)) if st == "nulls" else 0
+                    reqs.setdefault((st, t, "late%d" % (m // 1500)), []).append(q)
+                    m += 1
+                    n_stmt += 1
     # data-changing statements: each batch on a fresh copy of the database
     dmls = list(sets["dmls8"])
     rng.shuffle(dmls)
